@@ -85,7 +85,7 @@ Promote(a, b) ==
 ArrayOps == {"anew", "anewdata", "alen", "agetitem", "agetslice", "asetitem", "asetslice", "adelitem", "adelslice",
              "aappend", "aextend", "ainsert", "apop", "areverse", "acount", "atolist", "aiter", "aequals", "acopy",
              "asetdtype", "abyteswap", "atobytes", "atofile", "atrailing", "adata", "aop", "aiop", "acmp", "abitop",
-             "aunary", "aopa", "aextendarr", "afromarray", "aitemsize"}
+             "aunary", "aopa", "aextendarr", "afromarray", "aitemsize", "rawcall"}
 
 ArrayStep(objs, opts, call) ==
   LET op == call.op
@@ -96,7 +96,8 @@ ArrayStep(objs, opts, call) ==
       mx == opts.mx
       i1 == call.ia[1]  i2 == call.ia[2]  i3 == call.ia[3]
       Upd(v) == One(t, ARec(a.dn, a.dl, v)) IN
-  CASE op = "anew" ->
+  CASE op = "rawcall" -> Unconstrained      \* C20: only the envelope clauses of Trace.tla apply
+    [] op = "anew" ->
          \* sa = <<dtype name>>, ia = <<dtype length>>, va = items, xs = <<trailing bits>> (optional)
          LET dn == call.sa[1]  dl == call.ia[1]
              r == EncItems(dn, dl, call.va, mx)
